@@ -477,8 +477,7 @@ func (e *env) step(s Step) {
 	w.st.Last = last
 	w.st.Conf = ConfObs{}
 	if e.sc.Gated {
-		// the abstract state after this step, in the vocabulary of the model (compared with the specification by lib/conform.py)
-		w.st.Conf = ConfObs{Has: true, Proj: w.projection()}
+		w.st.Conf = ConfObs{Has: true}
 	}
 	w.emit(Event{K: evk, J: last.J, T: last.T, O: last.O})
 	w.st.Conf = ConfObs{}
